@@ -481,3 +481,8 @@ LEVEL_TEXT += (" The stream rules (R1, R2, R6, R7) are stated over an abstract s
                "end = Ok(None), error = Err / `?`; the running count and `self` are components of the state tuple: the count is 0 in the initial state, never written inside a step and carried on as "
                "count + len of the delivered payload, `self` is carried on unchanged and its cap never written or mutably borrowed). Any other mechanism fails closed.")
 LEVEL_TEXT += " Also (R8 = C19.R3): the builder that records a per-endpoint override stores exactly the declared value."
+LEVEL_TEXT += (" The stream model is built on the normalised view and names values by their variant-precise origins (lib_c01.sources): an item / error that reaches the generator through a spliced async helper "
+               "(`next_chunk(..).await?`, `Err(self.refuse().await)?`), a map_err closure, a helper fn or a match arm is the constructor call that built it; R6 counts and classifies those constructor sites (built or sent "
+               "under a refusing cap edge, or on the Err case of awaiting BodyExt::frame / http_dump_body: lib_c11.failure_splits), R7 walks path-sensitively (lib_c10.path_states, known variants carried through "
+               "`Poll::Ready(..)` / `Some(..)` wrappers) from the Err case of a frame to the error item. The cap is `self.cap` captured by the generator or the `cap` field of a captured whole `self` that the generator never "
+               "assigns or mutably borrows; the compared sum must structurally be running-count + Bytes::len(payload) (also let-bound / saturating_add), so another comparison with the cap (an asserted invariant) is not the check.")
